@@ -1166,9 +1166,11 @@ void process_io () {
           
           if (evt->event_type & EVENT_READ)
             {
+              object_t *user_ob = ip->ob;
               get_user_data (ip, evt);
-              /* ip->ob may be invalid after get_user_data if object was destructed */
-              if (!ip->ob || (ip->ob->flags & O_DESTRUCTED) || ip->ob->interactive != ip)
+              /* ip itself is freed by remove_interactive() when get_user_data() saw EOF or a read error,
+               * so it must be re-validated through the object, not through ip->ob */
+              if ((user_ob->flags & O_DESTRUCTED) || user_ob->interactive != ip)
                 {
                   continue;
                 }
